@@ -210,6 +210,30 @@ def oracle(ctx, widen=1):
         for cmsg in complaints:
             ctx.violation(f"mode {list(tr)}: {cmsg}", {"mode": list(tr), "seed": ctx.seed}, {"kind": "impure-query", "what": cmsg.split("(")[1].split(")")[0] if "(" in cmsg else "?"})
     ctx.stream("oracle:query-histories", total, len(kinds), histories=len(chosen))
+    # requests on aligned / degenerate set-ups, where the solver gives up half-way ("... cannot be chosen uniquely"): a refused query is
+    # still a query — the calculator is as it was, and the same question gets the same answer again
+    from diffcalc.hkl.calc import HklCalculation
+    from diffcalc.hkl.constraints import Constraints
+    reqs = PL.aligned_requests(ctx.rng, ctx.scale(1, 6) * widen) + PL.degenerate_requests(ctx.rng, ctx.scale(60, 2000) * widen)
+    outcomes = set()
+    for ub, vals, hkl, wl, tag in reqs:
+        hc = HklCalculation(ub, Constraints(vals))
+        before = snapshot(hc)
+        r1 = canon(S.run_impl("full", hc, hkl, wl))
+        mid = snapshot(hc)
+        r2 = canon(S.run_impl("full", hc, hkl, wl))
+        outcomes.add((tuple(sorted(vals)), r1[0]))
+        what = None
+        if mid != before:
+            what = "changed the calculator state"
+        elif snapshot(hc) != before:
+            what = "changed the calculator state when repeated"
+        elif r1 != r2:
+            what = f"was answered differently when repeated: {str(r1)[:100]} vs {str(r2)[:100]}"
+        if what:
+            ctx.violation(f"mode { {k: (v if v is True else round(v, 4)) for k, v in vals.items()} } get_position{tuple(hkl)} [{tag}] ({r1[0]}) {what}",
+                          {"constraints": vals, "hkl": list(hkl), "wl": wl}, {"kind": "impure-query", "what": "aligned request " + r1[0]})
+    ctx.stream("oracle:aligned-requests", len(reqs) * 2, len(outcomes))
 
 
 def replay(ctx, data):
